@@ -703,7 +703,7 @@ class CallMixin:
             if old_st is None:
                 self.unsupported(e, 'old() outside a postcondition')
             o = old_st.copy()
-            fid = self.spec_frame(o, env, info)
+            fid = self.spec_frame(o, dict(env, **getattr(self, 'qvars', {})), info)
             o.cur = fid
             res = self.eval(o, e.args[0])
             if len(res) != 1 or res[0][0].exc is not None:
@@ -719,6 +719,7 @@ class CallMixin:
                 self.unsupported(e, 'cur() outside an exit clause')
             o = fin.copy()
             n0 = len(fin.pc)
+            o.frames[o.cur].update(getattr(self, 'qvars', {}))
             res = self.eval(o, e.args[0])
             if len(res) != 1 or res[0][0].exc is not None:
                 self.unsupported(e, 'cur() expression forks')
@@ -731,6 +732,7 @@ class CallMixin:
                 self.unsupported(e, 'head() before any loop head was passed')
             o = snap.copy()
             n0 = len(snap.pc)
+            o.frames[o.cur].update(getattr(self, 'qvars', {}))
             res = self.eval(o, e.args[0])
             if len(res) != 1 or res[0][0].exc is not None:
                 self.unsupported(e, 'head() expression forks')
@@ -746,6 +748,10 @@ class CallMixin:
             var = e.args[0].id
             x = z3.Int(fresh_name('q_' + var))
             st.frames[st.cur][var] = VInt(x)
+            if not hasattr(self, 'qvars'):
+                self.qvars = {}
+            saved_q = dict(self.qvars)
+            self.qvars[var] = VInt(x)
             try:
                 if len(e.args) == 4:
                     (s, vals), = self.eval_many(st, e.args[1:])
@@ -757,6 +763,7 @@ class CallMixin:
                     body = self.truth(s, vals[0])
             finally:
                 st.frames[st.cur].pop(var, None)
+                self.qvars = saved_q
             if name == 'forall':
                 return [(st, VBool(z3.ForAll([x], z3.Implies(rng, body))))]
             return [(st, VBool(z3.Exists([x], z3.And(rng, body))))]
